@@ -71,8 +71,10 @@ def wrap(kind, d):
     if kind == 7: return {}
     return [d, d]
 
-def history_retort(ops, strict):
-    r = Retort(strict_coercion=strict)
+from adaptix import DebugTrail
+MODES = ((True, DebugTrail.ALL), (False, DebugTrail.ALL), (True, DebugTrail.DISABLE))
+def history_retort(ops, mode):
+    r = Retort(strict_coercion=mode[0], debug_trail=mode[1])
     for op, name in ops:
         try:
             if op == "L": r.get_loader(POOL[name])
@@ -130,8 +132,8 @@ HIST.append((("L", "NoLoader"), ("L", "Rec2")))
 NH = len(HIST)
 FRESH = {{}}
 WARM = {{}}
-for _s in (True, False):
-    _f = Retort(strict_coercion=_s)
+for _s in MODES:
+    _f = Retort(strict_coercion=_s[0], debug_trail=_s[1])
     FRESH[_s] = (safe(lambda: _f.get_loader(POOL[PROBE])), safe(lambda: _f.get_dumper(POOL[PROBE])))
     for _i, _ops in enumerate(HIST):
         _r = history_retort(_ops, _s)
@@ -140,7 +142,7 @@ for _s in (True, False):
 def probe_loader(hi, kind, d):
     hi = pick(hi, NH)
     data = wrap(kind, d)
-    for s in (True, False):
+    for s in MODES:
         fl, wl = FRESH[s][0], WARM[(hi, s)][0]
         if fl[0] != wl[0]: return False                     # creation succeeds / fails alike
         if fl[0] == "err":
@@ -153,7 +155,7 @@ def probe_loader(hi, kind, d):
 
 def probe_dumper(hi, d):
     hi = pick(hi, NH)
-    for s in (True, False):
+    for s in MODES:
         fd, wd = FRESH[s][1], WARM[(hi, s)][1]
         if fd[0] != wd[0]: return False
         if fd[0] == "err":
